@@ -11,7 +11,8 @@ MANIFEST = {
     "technique": "Coq proof on a Gallina model of txpool.go/txlist.go (invariant over all atomic-operation sequences) + lock "
                  "skeleton regenerated from the source (progress theorem) + differential correspondence on random op sequences "
                  "with tiny limits evaluated in Coq",
-    "text": "Theorems (all sequences of Add / Remove / reorg-spawn / single reorg-goroutine actions = all interleavings; all "
+    "text": "Theorems (all sequences of Add / Remove / reorg-spawn / single reorg-goroutine actions - every interleaving at the granularity "
+            "of the POOL lock; see the note for the list-lock granularity that is not covered; all "
             "verifier answers, Publish results and eviction tie-breaks; limits >= 1): the three indexes agree (ids unique, fee "
             "queue = allTransactions, every pooled tx in exactly its sender's list at its nonce and vice versa), size <= "
             "MaxTransactions, per-sender size <= limit, one tx per (sender, nonce), a replacement needs fee >= old + "
@@ -34,7 +35,7 @@ MANIFEST = {
             "(ABI VerifyTransaction, conn.Publish) are assumed to return. The invariant theorems are about the state machine whose atomic "
             "steps are Add, Remove, reorg spawn and single reorg-goroutine actions; a method split into several critical sections "
             "would be a different machine - excluded by the generated single-critical-section obligation. Harness interleavings are "
-            "controlled at the verifier calls (reorg goroutines, and Add itself); finer ones are covered by theorem + skeleton, not sampled. 'passed verification' = the verifier did not answer Invalid (verifyTransactions treats "
+            "controlled at the verifier calls (reorg goroutines, and Add itself). NOT covered, neither by the theorem nor by the harness: interleavings at LIST-lock granularity - Add is one section of the pool lock but takes the sender-list lock several times (GetUnprocessables, list.Remove, RejectsReplacement, list.Add) and reorg goroutines call GetPromotable/GetProcessables/Promote holding only the list lock, so a Promote falling between two list-lock sections of one Add is not an operation sequence of the model; the list-level invariants hold per list operation and Promote re-validates under the list lock, but PoolInv is not proved for an Add split that way and the harness has no gate at list.Promote. 'passed verification' = the verifier did not answer Invalid (verifyTransactions treats "
             "Pending as a pass; the Pending branch of reorg is dead code). Trusted: Coq kernel + vm_compute, translate/skeletons, "
             "Go harness, Python glue, container/heap keeping the minimum at index 0.",
 }
@@ -214,24 +215,32 @@ def harness_cases(ck, binp, args, tag):
     inp = os.path.join(ck.work, tag + "_rerun_in.jsonl")
     open(inp, "w").write("".join(json.dumps(r) + "\n" for r in hung))
     n_obl = ck.obligations
-    again = ck.run_harness(binp, ["-in", inp, "-n", "0"], out_name=tag + "_rerun.jsonl", timeout=420,
+    # a hang while the harness itself held a call (interleaved / overlapped steps) may be a schedule-dependent deadlock that one
+    # clean sequential re-run erases: every hung case is re-run THREE times (the input file lists each case three times)
+    open(inp, "w").write("".join(json.dumps(r) + "\n" for r in hung for _ in range(3)))
+    again = ck.run_harness(binp, ["-in", inp, "-n", "0"], out_name=tag + "_rerun.jsonl", timeout=900,
                            env_extra=dict(env, VERIF_WATCHDOG_MS="30000"))
     if again is None:
         # the re-run itself did not finish: the hung cases stay failures; do not add a second (harness) failure for it
         ck.failures = [f for f in ck.failures if not str(f.get("key", "")).startswith("obligation:harness-run")]
         ck.obligations = n_obl
-    again = (again or [])[-len(hung):]
+    again = (again or [])[-3 * len(hung):]
     replaced, kept = {}, 0
     for i, orig in enumerate(hung):
         st = next(s for s in orig["steps"] if s["hang"])
-        re_ok = i < len(again) and len(again) == len(hung) and not any(s["hang"] or s["panic"] for s in again[i]["steps"])
+        trio = again[3 * i:3 * i + 3] if len(again) == 3 * len(hung) else []
+        re_ok = len(trio) == 3 and not any(s["hang"] or s["panic"] for t in trio for s in t["steps"])
+        again_i = trio[0] if trio else None
         blocked = bool(BLOCKED.search(st.get("dump", "")))
         if re_ok and (st.get("held") or not blocked):
-            replaced[id(orig)] = again[i]
+            replaced[id(orig)] = again_i
         else:
             kept += 1
     kept += len(hung_all) - len(hung)
-    ck.notes.append("%s: %d case(s) did not return within the watchdog; %d re-run with 30 s: %d completed and showed no pool goroutine "
+    # hangs that three longer re-runs did not reproduce are kept visible in the evidence, not only in a note
+    ck.extra["hang_unreproduced"] = ck.extra.get("hang_unreproduced", 0) + len(replaced)
+    ck.extra["hang_kept_as_failure"] = ck.extra.get("hang_kept_as_failure", 0) + kept
+    ck.notes.append("%s: %d case(s) did not return within the watchdog; %d re-run three times with 30 s: %d completed and showed no pool goroutine "
                     "blocked (treated as load), %d kept as failures (dump in the replay)" % (tag, len(hung_all), len(hung), len(replaced), kept))
     return [replaced.get(id(r), r) for r in recs]
 
@@ -258,6 +267,9 @@ def race_reports(ck):
 
 
 def run(ck):
+    import glob
+    for f in glob.glob(os.path.join(ck.work, "race_c14.*")):
+        os.remove(f)  # stale race logs of an earlier (aborted) run must not be attributed to this one
     summ = run_translator(ck)
     ngen = count_generated(ck)
     ck.obligations += ngen
